@@ -13,9 +13,11 @@
    nothing selected) | from_x with two parameters | from_x not returning Result[T, _] | from_x with a receiver *)
 EXTENDS Integers, Sequences, FiniteSets, TLC
 
-HookKinds == {"none", "from_underlying", "from_x", "two_from", "from_x_arity2", "from_x_bad_return", "from_x_receiver"}
+\* from_x_plus_other_shape: one well-shaped from_x AND a static from_t of ANOTHER shape (from_t(s: str)): "a single from_* with the
+\* same shape" still singles out from_x (the property counts the same-shape ones)
+HookKinds == {"none", "from_underlying", "from_x", "two_from", "from_x_arity2", "from_x_bad_return", "from_x_receiver", "from_x_plus_other_shape"}
 \* does the declaration define THE validation hook, and under which name (property statement)
-HookName(h) == CASE h = "from_underlying" -> "from_underlying" [] h = "from_x" -> "from_x" [] OTHER -> ""
+HookName(h) == CASE h = "from_underlying" -> "from_underlying" [] h \in {"from_x", "from_x_plus_other_shape"} -> "from_x" [] OTHER -> ""
 HasHook(h) == HookName(h) # ""
 
 \* sites per unit kind: [id, own] - own = written inside one of T's own methods
